@@ -459,3 +459,11 @@ Example ex_nolint_additive :
      = Some ([], false)
   /\ analyze_nl (mkNL [b "-- atlas:nolint"] []) [mkSC 0 [AddTableC T]; mkSC 40 [DropTableC U]] = None.
 Proof. vm_compute. repeat split; reflexivity. Qed.
+
+(* C18_nolint_directive_argument on other separators: colon, no-break space => the bare directive; comma => one element *)
+Example ex_nolint_nonblank :
+  rules_of [b "-- atlas:nolint: incompatible" ++ nl] = [[]]
+  /\ rules_of [b "-- atlas:nolint" ++ [194; 160]%N ++ b "incompatible" ++ nl] = [[]]
+  /\ rules_of [b "-- atlas:nolint incompatible,DS102" ++ nl] = [b "incompatible,DS102"]
+  /\ silences (rules_of [b "-- atlas:nolint incompatible,DS102" ++ nl]) DS102 = false.
+Proof. exact nonblank_is_bare. Qed.
